@@ -165,12 +165,12 @@ def tcp_peer(req):
     return tid + b"\x00\x00" + len(body).to_bytes(2, "big") + body
 
 
-def make_request(t, k, bc):
+def make_request(t, k, bc, unit=1):
     from pymodbus.register_read_message import ReadHoldingRegistersRequest
     from pymodbus.register_write_message import WriteSingleRegisterRequest
     if bc:
         return WriteSingleRegisterRequest(address=t * 64 + k, value=7, unit=0)
-    return ReadHoldingRegistersRequest(address=t * 64 + k, count=1 + (t + k) % 3, unit=1)
+    return ReadHoldingRegistersRequest(address=t * 64 + k, count=1 + (t + k) % 3, unit=unit)
 
 
 def canon_result(r, req, t, k, bc, with_tid=True):
@@ -328,7 +328,8 @@ def explore_all(calls, limit, runner=None):
             return enabled[0]
         obs = (runner or run_schedule)(calls, choose)
         out.append(obs)
-        if obs["status"] != "ok" or obs.get("violations") or not obs["completed"] or any(x is None for rs in obs["results"] for x in rs):
+        if obs["status"] != "ok" or not obs["completed"] or (
+                obs["violations"] if "violations" in obs else any(x is None for rs in obs["results"] for x in rs)):
             suspects += 1
             if suspects >= 25:      # the property is already visibly broken: no point in enumerating on
                 break
@@ -387,11 +388,15 @@ def ascii_peer(frame):
 class FakeWire:
     """one object that is both a socket (send/recv/...) and a serial port (write/read/in_waiting)"""
 
-    def __init__(self, sched, log, peer):
-        self.sched, self.log, self.peer = sched, log, peer
+    def __init__(self, sched, log, peer, drop=()):
+        self.sched, self.log, self.peer, self.drop = sched, log, peer, set(drop)
         self.inbuf = bytearray()
         self.is_open = True
         self.timeout = 3
+
+    def fresh(self):
+        """what socket.create_connection / serial.Serial hand out after the client closed this one"""
+        return FakeWire(self.sched, self.log, self.peer, self.drop)
 
     def ev(self, op):
         th = threading.current_thread()
@@ -403,7 +408,9 @@ class FakeWire:
         self.sched.park("send")
         data = bytes(data)
         self.ev("send-b" if self.is_broadcast(data) else "send")
-        self.inbuf += self.peer(data)
+        th = threading.current_thread()
+        if (getattr(th, "c15_idx", None), getattr(th, "c15_k", None)) not in self.drop:   # fault script: reply lost
+            self.inbuf += self.peer(data)
         return len(data)
 
     def recv(self, n, *flags):
@@ -429,7 +436,7 @@ class FakeWire:
         return -1
 
     def close(self):
-        pass
+        self.is_open = False
 
     # --- serial
     def write(self, data):
@@ -468,7 +475,7 @@ class FakeSelect:
     def select(self, r, w, x, timeout=None):
         self.sched.park("select")
         self.wire.ev("select")
-        if self.wire.inbuf:
+        if any(getattr(x, "inbuf", None) for x in r):
             return (list(r), [], [])
         self.clock.sleep(timeout if timeout and timeout > 0 else 0.001)
         return ([], [], [])
@@ -482,16 +489,17 @@ class FakeSocketModule:
         self.wire = wire
 
     def create_connection(self, *a, **k):
-        return self.wire
+        return self.wire.fresh()
 
 
 SOCKET_OPS = ("send", "send-b", "recv", "select", "in_waiting")
 
 
-def judge_socket_trace(prog, log, results, completed):
+def judge_socket_trace(prog, log, results, completed, drop=(), lock_changes=()):
     """python-side oracle for the socket-level suite.  log: (t, k, op) with op a socket operation or
     'end' (execute returned)."""
-    bad = []
+    bad = ["the transaction lock object was replaced during thread %d call %d" % tk for tk in lock_changes]
+    drop = set(tuple(x) for x in drop)
     window = None                       # (t, k) between its send and the end of its receive (= return of the call)
     closed, cur = set(), None
     sends = {}
@@ -518,21 +526,27 @@ def judge_socket_trace(prog, log, results, completed):
             if completed and sends.get((t, k), 0) != 1:
                 bad.append("thread %d call %d: %d sends" % (t, k, sends.get((t, k), 0)))
             got = results[t][k] if k < len(results[t]) else "missing"
-            if got is None or got == "missing" or tuple(got[1:]) != (t, k):
+            if (t, k) in drop:
+                if got is not None:
+                    bad.append("thread %d call %d returned %r although its reply was lost" % (t, k, got))
+            elif got is None or got == "missing" or tuple(got[1:]) != (t, k):
                 bad.append("thread %d call %d returned %r instead of its own reply" % (t, k, got))
     if not completed:
         bad.append("not every call returned")
     return bad[:6]
 
 
-def make_runner(kind):
+def make_runner(kind, drop=()):
     def run(prog, choose):
-        return run_real(kind, prog, choose)
+        return run_real(kind, prog, choose, drop)
     return run
 
 
-def run_real(kind, prog, choose):
-    """one schedule on the REAL client methods; kind = 'tcp' | 'serial'"""
+def run_real(kind, prog, choose, drop=()):
+    """one schedule on the REAL client methods; kind = 'tcp' | 'serial';
+    drop = calls (t, k) whose reply the peer loses: the real code times out, closes the socket and the
+    next transaction reconnects through the real connect() (create_connection / Serial patched)"""
+    drop = [tuple(x) for x in drop]
     import serial
     from pymodbus.client import sync
     prog = [list(p) for p in prog]
@@ -541,11 +555,12 @@ def run_real(kind, prog, choose):
     sched = Sched(n)
     log = []
     clock = FakeClock()
-    wire = FakeWire(sched, log, tcp_peer if kind == "tcp" else ascii_peer)
+    wire = FakeWire(sched, log, tcp_peer if kind == "tcp" else ascii_peer, drop)
+    lock_changes = []
     sched.on_release = lambda: wire.ev("end")      # the transaction is over when the lock is released
     saved = (sync.select, sync.time, sync.socket, serial.Serial)
     sync.select, sync.time, sync.socket = FakeSelect(sched, wire, clock), clock, FakeSocketModule(wire)
-    serial.Serial = lambda *a, **k: wire
+    serial.Serial = lambda *a, **k: wire.fresh()
     try:
         if kind == "tcp":
             client = sync.ModbusTcpClient(host="mem", port=0, broadcast_enable=True)
@@ -564,13 +579,16 @@ def run_real(kind, prog, choose):
                 sched.park("start")
                 for k in range(calls[t]):
                     th.c15_k = k
-                    req = make_request(t, k, prog[t][k])
+                    req = make_request(t, k, prog[t][k], unit=2 if (t, k) in drop else 1)
+                    before = client.transaction._transaction_lock
                     try:
                         r = client.execute(req)
                     except Abort:
                         raise
                     except Exception as e:  # noqa: BLE001 — observation
                         r = e
+                    if client.transaction._transaction_lock is not before:
+                        lock_changes.append((t, k))
                     log.append((t, k, "end"))
                     results[t].append(canon_result(r, req, t, k, prog[t][k], with_tid=(kind == "tcp")))
             except Abort:
@@ -613,14 +631,15 @@ def run_real(kind, prog, choose):
     finally:
         sync.select, sync.time, sync.socket, serial.Serial = saved
     completed = status == "ok" and all(len(results[t]) == calls[t] for t in range(n))
-    return {"kind": kind, "calls": calls, "prog": prog, "decisions": [(t, k) for t, k, _ in decisions],
+    return {"kind": kind, "calls": calls, "prog": prog, "drop": [list(x) for x in drop],
+            "decisions": [(t, k) for t, k, _ in decisions],
             "enabled": [e for _, _, e in decisions], "log": list(log), "results": results, "status": status,
             "errors": errors + lock.misuse, "overlap": overlap, "completed": completed,
-            "violations": judge_socket_trace(prog, log, results, completed)}
+            "violations": judge_socket_trace(prog, log, results, completed, drop, lock_changes)}
 
 
 def real_desc(o):
-    return {"suite": "sockets", "kind": o["kind"], "calls": o["prog"],
+    return {"suite": "sockets", "kind": o["kind"], "calls": o["prog"], "drop": o.get("drop", []),
             "decisions": [[t, k] for t, k in o["decisions"]], "status": o["status"],
             "violations": o["violations"], "log": [list(e) for e in o["log"]][:80], "results": o["results"],
             "errors": o["errors"][:3]}
@@ -651,6 +670,13 @@ def collect_real(tier):
                 if obs[-1]["status"] in ("hang", "unjoined"):
                     break
             groups.append(("%s:rand-%s" % (kind, "x".join(map(str, calls))), obs))
+        # connection drop: caller 0's reply is lost -> timeout, the real code closes the socket, the next
+        # transaction reconnects through the real connect(); three callers, schedules around the reconnect
+        for prog, drop in (([[U], [U], [U]], [(0, 0)]), ([[U], [U], [U]], [(1, 0)]), ([[U, U], [U]], [(0, 0)])):
+            run = make_runner(kind, drop)
+            obs, _done = explore_all(prog, 250 if tier == "quick" else 20000, runner=run)
+            obs += explore_random(r, prog, 80 if tier == "quick" else 2000, runner=run)
+            groups.append(("%s:drop%s-%s" % (kind, drop[0], "|".join("u" * len(p) for p in prog)), obs))
     _REAL[tier] = (groups, complete, round(time.time() - t0, 1))
     return _REAL[tier]
 
@@ -764,7 +790,7 @@ def replay_case(suite, desc):
     def choose(enabled, i):
         return dec[i] if i < len(dec) and dec[i] in enabled else enabled[0]
     if suite == "sockets":
-        o = run_real(desc["kind"], desc["calls"], choose)
+        o = run_real(desc["kind"], desc["calls"], choose, desc.get("drop", []))
         print("status", o["status"], "violations", o["violations"], "results", o["results"])
         return bool(o["violations"] or o["status"] != "ok")
     o = run_schedule(desc["calls"], choose)
